@@ -38,6 +38,7 @@ const (
 	CatPanicListener = "panic.listener" // a call that panics only with a listener installed
 	CatIllegal       = "illegal"        // an illegal call was accepted, or changed something (C10)
 	CatDeadTarget    = "deadtarget"     // a dead target was accepted (C05 and C10)
+	CatCorrupt       = "corrupt"        // the world is inconsistent after a recovered panic of a batch call
 	CatEvents        = "events"         // C11
 	CatEventValues   = "events.values"  // component values read inside a callback (C01, C11)
 	CatCacheDiff     = "cachediff"      // registered vs plain filter (C07)
@@ -545,6 +546,18 @@ func (s *Sim) afterIllegal(o *Op, b *WB, why *Illegal, p any, shapeBefore string
 	if !single {
 		// batch failures are not atomic (DESIGN 4.8): only the panic is required. The case
 		// goes on if the world still equals the (unchanged) model, and ends quietly otherwise.
+		// But no query is open after the panic, so the world must not be locked (C09).
+		if b.W.IsLocked() {
+			s.Report(finding(CatLock, "%s: a batch call that panicked (%s) left the world locked although no query is open: %s", b.Name, why.Why, o.Describe()))
+			return
+		}
+		// ... and whatever part of the batch was applied, the world is still a consistent one: every
+		// entity a query visits is alive and visited once, the counts agree, the structural
+		// invariants hold
+		if msg := b.consistent(); msg != "" {
+			s.Report(finding(CatCorrupt, "%s: after a batch call panicked (%s) and the caller recovered, the world is corrupt: %s: %s", b.Name, why.Why, msg, o.Describe()))
+			return
+		}
 		nh := FullVerify
 		nh.Hooks = false
 		if err := b.Verify(s.M, nh); err != nil {
@@ -798,7 +811,9 @@ func (s *Sim) doCreateBatch(o *Op) {
 			}
 		})
 		if ill != nil {
-			s.afterIllegal(o, b, ill, p, "", false)
+			// a refused batch CREATION has created nothing (the counts of C02 and the event stream of
+			// C11 know of no such entities): judged like a single-entity call
+			s.afterIllegal(o, b, ill, p, "", true)
 			if p == nil || s.Done() {
 				return
 			}
